@@ -25,8 +25,10 @@ TRUSTED = [
     "public methods",
     "harness/ref/render.py: the uncached reference renderer (oracle); it walks public attributes, never calls "
     "to_HAP, and asks side-effect-free scripted getters for the value a read must return",
-    "single-threaded histories (the threaded window is C20); linked services and IID changes are not part of "
-    "C11 histories",
+    "single-threaded histories (the threaded window is C20); services are linked only to services of the same accessory; "
+    "structural histories (add service / add, remove bridged accessory / IIDManager assign, remove_obj, remove_iid "
+    "interleaved with mutations and reads) hand the model the loader-built definitions of every new service "
+    "(type, properties, loader name, initial value) as data",
     "harness generators and the in-process rig harness/ref/dbrig.py (real HAPServerHandler.dispatch on a "
     "connection marked verified)",
 ]
@@ -79,8 +81,13 @@ def validated(c, v, client: bool = False) -> Optional[dict]:
 
 
 def getter_outcome(c) -> Optional[dict]:
+    """Outcome of `get_value`'s use of the getter callback: the answer converted by `to_valid_value` and
+    accepted by `valid_value_or_raise` (an answer that is not one of the declared valid values counts as a
+    raising getter, /repo e2cce9e), or None when any of the three raised."""
     try:
-        return {"v": c.to_valid_value(c.getter_callback())}
+        v = c.to_valid_value(c.getter_callback())
+        c.valid_value_or_raise(v)
+        return {"v": v}
     except Exception:  # noqa: BLE001
         return None
 
@@ -108,6 +115,7 @@ class Hist:
         self.fails: List[tuple] = []
         self.reads_after_mutation = 0
         self.dirty = False
+        self.structural = False  # the history changed the structure / the iid tables
         self.broken: Optional[dict] = None  # an op on which pyhap raised unexpectedly
 
     def fail(self, sig, desc):
@@ -128,12 +136,14 @@ class Hist:
                 {
                     "aid": key,
                     "available": bool(acc.available),
+                    "counter": acc.iid_manager.counter,
                     "iids": [[rig.num(o), i] for o, i in acc.iid_manager.iids.items()],
                     "services": [
                         {
                             "obj": rig.num(s),
                             "type": hap_type(s.type_id),
                             "primary": s.is_primary_service,
+                            "linked": [rig.num(ls) for ls in s.linked_services],
                             "chars": [
                                 {
                                     "obj": rig.num(c),
@@ -152,7 +162,24 @@ class Hist:
                     ],
                 }
             )
-        return {"bridge": rig.is_bridge, "accessories": accs}
+        return {"bridge": rig.is_bridge, "accessories": accs, "nextObj": len(rig.objs)}
+
+    @staticmethod
+    def service_def(svc) -> dict:
+        """A freshly built service as data for the model: what the loader produced."""
+        return {
+            "type": hap_type(svc.type_id),
+            "chars": [
+                {
+                    "type": hap_type(c.type_id),
+                    "props": copy.deepcopy(c.properties),
+                    "name": c.display_name,
+                    "value": c.value,
+                    "alwaysNull": is_always_null(c),
+                }
+                for c in svc.characteristics
+            ],
+        }
 
     # ------------------------------------------------------------------ operations
 
@@ -186,7 +213,7 @@ class Hist:
         if self.broken is not None:
             return
         k = op["op"]
-        if k in ("set_value", "client_write", "override", "display_name", "getter"):
+        if k in ("set_value", "client_write", "override", "display_name", "getter", "assign_value"):
             target = self.rig.objs[op["obj"]]
             before = self.others_snapshot(target)
             self.guarded(op)
@@ -209,7 +236,7 @@ class Hist:
         rig = self.rig
         k = op["op"]
         out = None
-        if k in ("set_value", "client_write", "override", "display_name", "getter"):
+        if k in ("set_value", "client_write", "override", "display_name", "getter", "assign_value"):
             c = rig.objs[op["obj"]]
             n = op["obj"]
         if k == "set_value":
@@ -275,6 +302,56 @@ class Hist:
             svc = rig.objs[op["svc"]]
             acc.set_primary_service(svc)
             self.lines.append({"op": "setPrimary", "aid": op["aid"], "type": hap_type(svc.type_id)})
+            self.dirty = True
+        elif k == "assign_value":
+            c.value = op["value"]  # the public property setter: no validation
+            self.lines.append({"op": "assignValue", "obj": n, "value": op["value"]})
+            self.dirty = True
+        elif k == "add_service":
+            acc = rig.accessory(op["aid"])
+            svc = rig.add_service(acc, op["spec"])
+            for ch in svc.characteristics:
+                self.owner[id(ch)] = op["aid"]
+            self.lines.append({"op": "addService", "aid": op["aid"], "def": self.service_def(svc)})
+            self.dirty = self.structural = True
+            out = {"ok": None}
+        elif k == "add_accessory":
+            acc = rig.new_accessory(op["aid"], op["specs"])
+            defs = [self.service_def(sv) for sv in acc.services]
+            self.lines.append({"op": "addAccessory", "aid": op["aid"], "defs": defs})
+            try:
+                rig.top.add_accessory(acc)
+            except ValueError:
+                out = {"err": "ValueError"}
+            else:
+                rig.number_accessory(acc)
+                for sv in acc.services:
+                    for ch in sv.characteristics:
+                        self.owner[id(ch)] = acc.aid
+                out = {"ok": acc.aid}
+            self.dirty = self.structural = True
+        elif k == "remove_accessory":
+            rig.top.accessories.pop(op["aid"], None)
+            self.lines.append({"op": "removeAccessory", "aid": op["aid"]})
+            self.dirty = self.structural = True
+            out = {"ok": None}
+        elif k in ("iid_assign", "iid_remove_obj", "iid_remove_iid"):
+            acc = rig.accessory(op["aid"])
+            m = acc.iid_manager
+            if k == "iid_assign":
+                m.assign(rig.objs[op["obj"]])
+                self.lines.append({"op": "assign", "aid": op["aid"], "obj": op["obj"]})
+                out = {"ok": None}
+            elif k == "iid_remove_obj":
+                out = {"ok": m.remove_obj(rig.objs[op["obj"]])}
+                self.lines.append({"op": "removeObj", "aid": op["aid"], "obj": op["obj"]})
+            else:
+                out = {"ok": rig.num(m.remove_iid(op["iid"]))}
+                self.lines.append({"op": "removeIid", "aid": op["aid"], "iid": op["iid"]})
+            self.dirty = self.structural = True
+        elif k == "link":
+            rig.objs[op["svc"]].add_linked_service(rig.objs[op["other"]])
+            self.lines.append({"op": "addLinked", "aid": op["aid"], "svc": op["svc"], "other": op["other"]})
             self.dirty = True
         elif k == "read_all":
             out = self.read_all(op)
@@ -398,7 +475,7 @@ class Hist:
         return {"code": status, "characteristics": canon(entries)}
 
     def line(self) -> dict:
-        return {"layer": "db", "op": "c11", "config": self.config, "ops": self.lines}
+        return {"layer": "db", "op": "c11u", "config": self.config, "ops": self.lines}
 
     def replayable(self) -> dict:
         return {"kind": "c11", "cfg": self.cfg, "ops": self.ops}
@@ -491,6 +568,10 @@ BOUNDARY_PROGRAMS = [
     ["read_one", "read_many", ("getter", "raise"), "read_many", "read_unknown", "read_all"],
     # an override whose re-validation raises TypeError after the properties were updated
     ["read_all_nv", "read_all", ("override_bad",), "read_all_nv", "read_all", "read_one"],
+    # a getter whose answer is not one of the declared valid values is a failed read (/repo e2cce9e):
+    # -70402 for its entry, GET /accessories fails like for any raising getter, nothing stale afterwards
+    ["read_all", "read_one", ("getter_invalid",), "read_one", "read_many", "read_all", ("getter_change",), "read_one", "read_all",
+     ("getter_invalid",), ("getter", "off"), "read_all", "read_one"],
     # same-typed characteristics (one loader): fill the caches, override exactly one instance, read the
     # siblings, update a sibling's value, read again
     ["siblings", "read_all", "read_all_nv", ("override",), "read_all", "read_all_nv", "read_sib", ("sib_set_value",),
@@ -522,7 +603,46 @@ def gen_history(ctx: Ctx, pool, program=None, n_ops: Optional[int] = None) -> Hi
 
     def pair_of(t):
         key, acc, s, c = t
-        return [acc.aid, acc.iid_manager.get_iid(c)]
+        iid = acc.iid_manager.get_iid(c)
+        if iid is None:  # removed from the manager: no path names it; ask for an iid nobody holds
+            iid = acc.iid_manager.counter + 1
+        return [acc.aid, iid]
+
+    structural = program is None and rng.random() < 0.4
+    removed: List[tuple] = []  # (aid, object number) taken out of a manager
+
+    def refresh():
+        nonlocal live, readable, focus
+        live = [(key, acc, s, c) for key, acc, s, c in h.chars()]
+        ids_live = {id(t[3]) for t in live}
+        readable = [t for t in live if "pr" in t[3].properties["Permissions"]]
+        focus = [t for t in focus if id(t[3]) in ids_live]
+        fresh = [t for t in live if id(t[3]) not in {id(x[3]) for x in focus}]
+        focus += rng.sample(fresh, min(len(fresh), 2 if focus else 4))
+
+    def struct_op():
+        keys = [k for k, _ in rig.accessories()]
+        x = rng.random()
+        if x < 0.2:
+            return {"op": "add_service", "aid": rng.choice(keys), "spec": dbrig.random_spec(rng, pool)}
+        if rig.is_bridge and x < 0.4:
+            y = rng.random()
+            aid = None if y < 0.6 else (rng.choice(range(2, 10)) if y < 0.85 else rng.choice(keys + [7]))
+            return {"op": "add_accessory", "aid": aid, "specs": [dbrig.random_spec(rng, pool) for _ in range(rng.choice([0, 1, 1, 2]))]}
+        if rig.is_bridge and x < 0.5 and len(keys) > 1:
+            return {"op": "remove_accessory", "aid": rng.choice(keys[1:] + [rng.randrange(2, 10)])}
+        key = rng.choice(keys)
+        acc = rig.accessory(key)
+        own = [rig.num(o) for sv in acc.services for o in [sv, *sv.characteristics]]
+        mine = [o for a, o in removed if a == key and o in own]
+        z = rng.random()
+        if mine and z < 0.45:
+            return {"op": "iid_assign", "aid": key, "obj": rng.choice(mine)}
+        if z < 0.75:
+            return {"op": "iid_remove_obj", "aid": key, "obj": rng.choice(own)}
+        if z < 0.92:
+            return {"op": "iid_remove_iid", "aid": key, "iid": rng.randrange(1, acc.iid_manager.counter + 3)}
+        return {"op": "iid_assign", "aid": key, "obj": rng.choice(own)}
 
     def rand_ids():
         ids = []
@@ -534,7 +654,8 @@ def gen_history(ctx: Ctx, pool, program=None, n_ops: Optional[int] = None) -> Hi
                 ids.append(pair_of(rng.choice(live)))
             elif y < 0.86:
                 key, acc, s, c = rng.choice(live)
-                ids.append([acc.aid, acc.iid_manager.get_iid(s)])  # a service iid
+                sid = acc.iid_manager.get_iid(s)
+                ids.append([acc.aid, sid if sid is not None else acc.iid_manager.counter + 2])  # a service iid
             elif y < 0.93:
                 key, acc, s, c = rng.choice(live)
                 ids.append([acc.aid, acc.iid_manager.counter + rng.randrange(1, 9)])  # unknown iid
@@ -554,7 +675,9 @@ def gen_history(ctx: Ctx, pool, program=None, n_ops: Optional[int] = None) -> Hi
         n = rig.num(c)
         if y < 0.3:
             return {"op": "set_value", "obj": n, "value": rand_value(rng, c)}
-        if y < 0.5:
+        if y < 0.34:
+            return {"op": "assign_value", "obj": n, "value": _other_value(rng, c) if rng.random() < 0.8 else rand_value(rng, c)}
+        if y < 0.5 and acc.iid_manager.get_iid(c) is not None and rig.accessory(key) is acc:
             return {"op": "client_write", "obj": n, "value": rng.choice([v for v in [rand_value(rng, c) for _ in range(4)] if v is not None] or [0]),
                     "cb": rng.choice(["none", "none", "ok", "raise"])}
         if y < 0.65:
@@ -572,6 +695,9 @@ def gen_history(ctx: Ctx, pool, program=None, n_ops: Optional[int] = None) -> Hi
         if ("override_bad",) in program:
             numeric = [x for x in cands if x[3].properties["Format"] in ref.NUMERIC_FORMATS and not x[3].properties.get("ValidValues")]
             cands = numeric or cands
+        if ("getter_invalid",) in program:
+            with_vv = [x for x in cands if x[3].properties.get("ValidValues") and x[3].properties["Format"] in ref.NUMERIC_FORMATS]
+            cands = with_vv or cands
         if "siblings" in program:
             # a characteristic type that occurs at least twice outside the information service
             by_type: Dict[str, list] = {}
@@ -614,6 +740,10 @@ def gen_history(ctx: Ctx, pool, program=None, n_ops: Optional[int] = None) -> Hi
                 h.apply({"op": "set_value", "obj": n, "value": _other_value(rng, c)})
             elif step[0] == "getter":
                 h.apply({"op": "getter", "obj": n, "mode": step[1], "value": _other_value(rng, c)})
+            elif step[0] == "getter_invalid":
+                vv = c.properties.get("ValidValues")
+                bad = max(vv.values()) + 7 if vv and c.properties["Format"] in ref.NUMERIC_FORMATS else "not-a-number"
+                h.apply({"op": "getter", "obj": n, "mode": "value", "value": bad})
             elif step[0] == "getter_change":
                 h.apply({"op": "getter", "obj": n, "mode": "value", "value": _other_value(rng, c)})
             elif step[0] == "override":
@@ -626,6 +756,15 @@ def gen_history(ctx: Ctx, pool, program=None, n_ops: Optional[int] = None) -> Hi
         return h
 
     for _ in range(n_ops or rng.randrange(6, 30)):
+        if structural and rng.random() < 0.2:
+            op = struct_op()
+            h.apply(op)
+            if h.broken is None and op["op"] in ("iid_remove_obj", "iid_remove_iid") and h.outs and (h.outs[-1] or {}).get("ok") is not None:
+                removed.append((op["aid"], op["obj"] if op["op"] == "iid_remove_obj" else h.outs[-1]["ok"]))
+            refresh()
+            if not live:
+                break
+            continue
         x = rng.random()
         if x < 0.22:
             h.apply({"op": "read_all", "incl": rng.random() < 0.7, "via": rng.choice(["driver", "handler"])})
@@ -636,6 +775,12 @@ def gen_history(ctx: Ctx, pool, program=None, n_ops: Optional[int] = None) -> Hi
         elif x < 0.49:
             key, acc, s, c = rng.choice(live)
             h.apply({"op": "primary", "aid": key, "svc": rig.num(s)})
+        elif x < 0.53:
+            # link two services of one accessory (sometimes the same pair again, sometimes a service to itself)
+            key, acc, s, c = rng.choice(live)
+            if rig.accessory(key) is acc:
+                other = rng.choice(acc.services) if rng.random() < 0.8 or not s.linked_services else rng.choice(s.linked_services)
+                h.apply({"op": "link", "aid": key, "svc": rig.num(s), "other": rig.num(other)})
         else:
             h.apply(mutate(rng.choice(focus if rng.random() < 0.85 else live)))
     return h
@@ -715,12 +860,13 @@ def run(ctx: Ctx):
         "a case is one configuration (standalone accessory or bridge with 1-4 bridged accessories, all built from "
         "shipped services) plus a history of set_value / controller write (PUT /characteristics, with or without a "
         "raising setter callback) / override_properties / display-name change / getter install, change, removal / "
-        "availability and primary-service changes, interleaved with GET /accessories (with and without values, via the "
+        "availability and primary-service changes / linking services / plain value assignment, and in 40% of the random histories also structural "
+        "changes (add service, add / remove bridged accessory, IIDManager assign / remove_obj / remove_iid), interleaved with GET /accessories (with and without values, via the "
         "driver and via HAPServerHandler.dispatch) and GET /characteristics. Non-trivial: at least one read happens "
         "after a mutation; distinct by configuration + op list."
     )
     pool = dbrig.spec_pool(Loader())
-    hs = generate(ctx, pool, ctx.n(400, 9000))
+    hs = generate(ctx, pool, ctx.n(600, 9000))
     model = run_model_parallel("C11", [h.line() for h in hs])
     for h, m in zip(hs, model):
         judge(ctx, h)
@@ -733,6 +879,8 @@ def run(ctx: Ctx):
                 f"pyhap raised {h.broken['raised']}: {h.broken['message']}",
             )
         st.case([h.cfg, h.ops], h.reads_after_mutation > 0)
+        if h.structural:
+            st.hit("outcome", "structural-history")
         for op, out in zip(h.ops, h.outs):
             st.hit("op", op["op"] + (":no-value" if op["op"] == "read_all" and not op["incl"] else ""))
             if op["op"] == "read_chars":
@@ -768,6 +916,8 @@ def run(ctx: Ctx):
 def canon_model(o):
     if o is None:
         return None
+    if "ok" in o or "err" in o:
+        return o
     if "raised" in o:
         return {"raised": True}
     if "accessories" in o:
